@@ -202,7 +202,33 @@ func runC16(b *fw.B) {
 				}
 			case "unjudged":
 				b.Inc("op_unjudged_key_known_earlier")
-				// outcome not judged; a returned new handle is not tracked
+				// outcome not judged; a returned new handle is not tracked. Whatever the outcome, a handle that is handed out must be
+				// consistent with itself: a key it reports at index i is the key it reports for index i.
+				if err == nil && ret != nil && ret != h {
+					if _, known := models[ret]; !known {
+						b.Inc("handles_from_the_unjudged_case_checked_for_self_consistency")
+						for kid := 0; kid < pool && !bad; kid++ {
+							var gi common.ValidatorIndex
+							var ok bool
+							if !b.NoPanic("ValidatorIndex/panic", func() { gi, ok = ret.ValidatorIndex(pkOf(kid)) }) {
+								bad = true
+								break
+							}
+							if !ok {
+								continue
+							}
+							var cp *common.CachedPubkey
+							var ok2 bool
+							if !b.NoPanic("Pubkey/panic", func() { cp, ok2 = ret.Pubkey(gi) }) {
+								bad = true
+								break
+							}
+							if !ok2 || cp == nil || cp.Compressed != pkOf(kid) {
+								viol("lookup/handle-contradicts-itself", fmt.Sprintf("a handle returned for (index %d, key k%d already known earlier) reports key k%d at index %d, but Pubkey(%d) ok=%v does not give that key", idx, id, kid, gi, gi, ok2))
+							}
+						}
+					}
+				}
 			}
 			if bad {
 				break
